@@ -23,6 +23,7 @@ EXPLANATION = EXPLANATION + " Added while testing against seeded changes: " + EX
 EXPLANATION = EXPLANATION + " Round 10: (R8) the connector of a client handshake is built in that call from make_client_config(this call's arguments), never taken from process-wide state."
 EXPLANATION = EXPLANATION + " Rounds 12-13: (R9) the permissive verifier accepts every certificate (verify_server_cert is Ok on every path) and its TLS 1.2 / 1.3 signature hooks delegate to rustls::crypto::verify_tls1x_signature with the handshake's own arguments; (R10, thorough tier, native-tls) every native server-identity constructor refuses a configured client CA."
 EXPLANATION = EXPLANATION + ' Rounds 14-15: R4 also requires that a given --tls-server-name / --hostname is always applied (the handshake is not reachable from the Some edge without the assignment).'
+EXPLANATION = EXPLANATION + ' Round 18: R2 also requires the root store that receives a custom CA to start as RootCertStore::empty().'
 ASSUMPTIONS = ["rustls / native-tls perform chain and name validation as documented for the configured verifier"]
 NOT_DECIDED = "rustls' own certificate validation; behaviour of established connections across a swap"
 QUICK_CONFIGS = ["default"]
